@@ -13,6 +13,7 @@ import (
 	"runtime/debug"
 	"strings"
 	"sync"
+	"sync/atomic"
 
 	"github.com/buildbarn/bb-remote-execution/pkg/filesystem/virtual"
 	"github.com/buildbarn/bb-remote-execution/pkg/filesystem/virtual/nfsv4"
@@ -30,6 +31,14 @@ type fakeLeaf struct {
 	mu     sync.Mutex
 	opens  int
 	closes int
+
+	// readGate, when set, makes VirtualRead announce itself and wait.
+	readGate atomic.Pointer[leafGate]
+}
+
+type leafGate struct {
+	entered chan struct{}
+	release chan struct{}
 }
 
 func (l *fakeLeaf) VirtualGetAttributes(ctx context.Context, requested virtual.AttributesMask, attributes *virtual.Attributes) {
@@ -66,6 +75,10 @@ func (l *fakeLeaf) VirtualOpenSelf(ctx context.Context, shareAccess virtual.Shar
 }
 
 func (l *fakeLeaf) VirtualRead(ctx context.Context, buf []byte, offset uint64) (int, bool, virtual.Status) {
+	if g := l.readGate.Load(); g != nil {
+		g.entered <- struct{}{}
+		<-g.release
+	}
 	return 0, true, virtual.StatusOK
 }
 
